@@ -156,7 +156,7 @@ def run_case(case, seed):
     if not np.array_equal(table[G.gkey(e)], A0):
         bad("C02/identity", "identity does not act trivially")
     # integer-typed and half-precision data (identifier values are small: exactly representable)
-    for dt in (np.int32, np.float16):
+    for dt in (np.int32, np.float16, np.uint8):
         for g in B[:: max(1, len(B) // 8)]:
             got = np.asarray(geom.times_group_element(D, jnp.asarray(A1.astype(dt)), p, g)).astype(np.float64)
             evals += 1
